@@ -130,6 +130,7 @@ def main():
         gen_info = mod.regenerate(sp, modelmod.LEAN_DIR)
 
     # 3. proof obligations
+    leanproof.write_driver_all()
     if args.no_proof:
         obl = {'theorems': [], 'failed': [], 'axioms': {}, 'build_ok': True, 'module': 'skipped'}
         ok, blog, _ = leanproof.lake_build(['Splipy.Driver.All'])
